@@ -451,7 +451,7 @@ theorem step_M {cfg : Cfg} (f : Nat) (ihV : VS cfg f) (ihM : MS cfg f) : MS cfg 
         by_cases hu : inUnquoted (cur s).1 = true
         · rw [if_pos hu] at heqK
           simp only [Prod.mk.injEq, true_and] at heqK
-          rw [← heqK.2]
+          rw [← heqK.2.2]
           exact ⟨by rw [skipUnquoted_parse (f + 1) [] (cur s).2], parseUnquoted_rem _ _ _ _ (look hr)⟩
         · rw [if_neg hu] at heqK; cases heqK
     obtain ⟨hkS, rq⟩ := hkS
